@@ -1,7 +1,7 @@
 #include "verif.h"
 #ifdef P_QMESEARCH
 #include "stralloc.h"
-extern int g_desc, g_pre, g_nprobes, g_last_pre, g_found, g_found_pre, g_exact_probed, g_K, g_K_probed; extern stralloc safeext; extern char sext[64];
+extern int g_desc, g_pre, g_nprobes, g_last_pre, g_found, g_found_pre, g_exact_probed, g_K, g_K_probed; extern stralloc safeext; extern char *sext;
 int qmeexists(int *fd, int *cutable)
 {
   V_ASSERT(!g_found, "C13: the first existing candidate wins, nothing is tried after it");
